@@ -4014,6 +4014,7 @@ EbErrorType svt_output_buffer_header_creator(
 void svt_output_buffer_header_destroyer(    EbPtr p)
 {
     EbBufferHeaderType* obj = (EbBufferHeaderType*)p;
+    EB_FREE(obj->p_buffer); // a packet the application never fetched/released (teardown before EOS)
     EB_FREE(obj);
 }
 
